@@ -200,7 +200,7 @@ def rule_P2(ctx):
     from .util import regex_value
     pat, _fl = regex_value(ctx, rg, ctx.prog.module(ST), "P2", f"{ST}:Image._STEREO_FILENAME")
     import re._constants as sc
-    t = rx.parse(pat)
+    t = rx.parse(pat, _fl or 0)
     gs = rx.groups(t)
     alts = None
     if len(gs) == 3 and len(gs[2][1]) == 1 and gs[2][1][0][0] is sc.BRANCH:
